@@ -334,6 +334,50 @@ def c09_check(case):
     return {}
 
 
+def c09_deep_cases(tier, shard, nshards, seed):  # pylint:disable=unused-argument
+    cases = []
+    for depth in ([120, 260] if tier == "quick" else [60, 120, 200, 260, 300]):
+        for first_fulfilled in (True, False):
+            cases.append({"depth": depth, "first_fulfilled": first_fulfilled})
+    return _shard(cases, shard, nshards)
+
+
+def c09_deep_check(case):
+    """
+    'Muss <condition nested `depth` brackets deep> Soll [2][902] Kann': the parts are those three, and the first one whose
+    requirement constraints are fulfilled is reported - the deeply nested first part or, if it is unfulfilled, the second.
+    (The resolver copes with about 400 levels, see C02's stage deep; the depths used here stay below that.)
+    """
+    api = evalhelp.api()
+    depth = case["depth"]
+    keys = ["1", "3"]
+    operands = [f"[{keys[index % 2]}]" for index in range(depth + 1)]
+    ops = ["and" if index % 3 else "or" for index in range(depth)]
+    nested = nested_text(operands, ops)
+    first = "F" if case["first_fulfilled"] else "U"
+    assignment = {"1": first, "3": first, "2": "F"}
+    expected_first = fold([assignment[keys[index % 2]] for index in range(depth + 1)], ops)
+    text = f"Muss {nested} Soll [2][902] Kann"
+    sut.setup_hardcoded(sut.make_cer(rc=assignment, fc={"902": False}))
+
+    async def job():
+        tree = await api.resolve(text)
+        return await api.evaluate_ahb_expression_tree(tree)
+
+    res = sut.call(job)
+    if not res.ok:
+        fail("deep-condition-raises", f"evaluating 'Muss <{depth} brackets deep> Soll [2][902] Kann' raised {res!r}"[:600])
+    indicator = str(getattr(res.value.requirement_indicator, "value", res.value.requirement_indicator))
+    want = "MUSS" if expected_first == "F" else "SOLL"
+    if indicator != want:
+        fail("deep-condition-selected", f"'Muss <{depth} brackets deep, state {expected_first}> Soll [2][902] Kann': reported {indicator}, expected {want}")
+    format_ok = res.value.format_constraint_evaluation_result.format_constraints_fulfilled
+    if format_ok is not (want == "MUSS"):
+        fail("deep-condition-selected", f"'Muss <{depth} brackets deep, state {expected_first}> Soll [2][902] Kann' with [902] unfulfilled: "
+             f"format_constraints_fulfilled = {format_ok!r} although {want} was selected")  # fmt: skip
+    return {}
+
+
 # ----------------------------------------------------------------------------------------------------------- C10
 
 
